@@ -65,7 +65,9 @@ Print Assumptions C02_translate_is_print.
 
 (* ---- get_url_after_anchor ---- *)
 Theorem C02_url_after_anchor : forall url host hs ae,
-  find_sub host url = Some hs -> (0 < ae <= length host)%nat ->
+  (host_search_start url <= hs)%nat ->
+  find_sub host (drop (host_search_start url) url) = Some (hs - host_search_start url)%nat ->
+  (0 < ae <= length host)%nat ->
   get_url_after_anchor url host ae = drop (hs + ae) url.
 Proof. exact get_url_after_anchor_spec. Qed.
 Print Assumptions C02_url_after_anchor.
@@ -76,17 +78,17 @@ Proof. exact mask_bits_independent. Qed.
 Print Assumptions C02_mask_bits_independent.
 
 (* ---- main theorem: check_pattern (dispatch + the nine functions) = ABP semantics of what the
-   parsed fields denote.  Carve-outs, all boolean: wf_fields (parser invariants), nondegenerate_fields
-   (field shapes only degenerate spellings produce), suffix_mid_label_case (finding
-   C02_suffix_mid_label); wf_request excludes requests whose hostname occurs in the URL before the
-   host (finding C02_host_in_url_prefix) and IPv6-literal hosts.  The regex crate enters through
-   the premise re_std for this rule's regex text. ---- *)
+   parsed fields denote.  Carve-outs, all boolean: wf_fields (parser invariants) and
+   nondegenerate_fields (field shapes only degenerate spellings produce); wf_request says that the
+   request hostname is what follows "://" and the credentials in the URL, and excludes
+   IPv6-literal hosts.  The regex crate enters through the premise re_std for this rule's regex
+   text.  (The former carve-outs suffix_mid_label and host-in-URL-prefix are gone: both defects
+   were repaired in /repo and the theorem now covers those inputs.) ---- *)
 Theorem C02_check_pattern_ref : forall re_ok re_match mask filter hostname r hs,
   let sh := shape_of_mask mask in
   wf_fields sh filter hostname = true ->
   nondegenerate_fields sh filter hostname = true ->
   wf_request r hs ->
-  suffix_mid_label_case sh filter hostname r = false ->
   (forall f, filter = Some f -> s_rx sh = true ->
              re_std re_ok re_match (translate f (s_la sh) (s_ra sh)) (s_la sh) (s_ra sh) (toks f)) ->
   (check_pattern re_ok re_match mask (fs_of filter) hostname r = true <->
@@ -108,7 +110,6 @@ Theorem C02_check_line_ref_partial : forall re_ok re_match line r hs,
   let pf := parse_line line in
   parse_ok line = true ->
   wf_request r hs ->
-  suffix_mid_label_case (pf_shape pf) (pf_filter pf) (pf_hostname pf) r = false ->
   (forall f, pf_filter pf = Some f -> s_rx (pf_shape pf) = true ->
              re_std re_ok re_match (translate f (s_la (pf_shape pf)) (s_ra (pf_shape pf)))
                     (s_la (pf_shape pf)) (s_ra (pf_shape pf)) (toks f)) ->
@@ -123,7 +124,7 @@ Theorem C02_parse_preserves_ast_bounded : forall line,
 Proof. exact parse_preserves_ast_bounded. Qed.
 Print Assumptions C02_parse_preserves_ast_bounded.
 
-(* ---- refutations (each witness replayed on the crate is a listed finding) ---- *)
+(* ---- refutation (the witness replayed on the crate is the listed finding F22) ---- *)
 Theorem C02_host_right_pipe_refuted :
   exists line url host hs,
     host_right_pipe line = true /\ nondegenerate_text line = true /\
@@ -132,27 +133,6 @@ Theorem C02_host_right_pipe_refuted :
 Proof. exact host_right_pipe_refuted. Qed.
 Print Assumptions C02_host_right_pipe_refuted.
 
-Theorem C02_suffix_mid_label_refuted :
-  exists line url host hs,
-    nondegenerate_text line = true /\ host_right_pipe line = false /\ parse_ok line = true /\
-    wf_request {| r_url := url; r_host := host |} hs /\
-    cp_line line url host = true /\ ~ ref_match (ast_of_text line) url host hs.
-Proof. exact suffix_mid_label_refuted. Qed.
-Print Assumptions C02_suffix_mid_label_refuted.
-
-Theorem C02_host_in_url_prefix_refuted :
-  exists line url host hs,
-    nondegenerate_text line = true /\ host_right_pipe line = false /\
-    find_sub host url <> Some hs /\
-    cp_line line url host = false /\ ref_match (ast_of_text line) url host hs.
-Proof. exact host_in_url_prefix_refuted. Qed.
-Print Assumptions C02_host_in_url_prefix_refuted.
-
-Theorem C02_www_strip_case_refuted :
-  exists line url host hs,
-    nondegenerate_text line = true /\ host_right_pipe line = false /\ www_strip_case line = true /\
-    wf_request {| r_url := url; r_host := host |} hs /\
-    cp_line line url host = false /\ ref_match (ast_of_text line) url host hs /\
-    cp_line (lower_str line) url host = true.
-Proof. exact www_strip_case_refuted. Qed.
-Print Assumptions C02_www_strip_case_refuted.
+Theorem C02_wf_request_decidable : forall r hs, wf_requestb r hs = true -> wf_request r hs.
+Proof. exact wf_requestb_spec. Qed.
+Print Assumptions C02_wf_request_decidable.
